@@ -42,6 +42,7 @@ type SeriesLayout struct {
 	Group  int           `json:"group"` // which of the operation's compaction plans (by output sequence)
 	Fields []string      `json:"fields"` // union of the column names, sorted (the order the compactor walks them)
 	In     []ChunkLayout `json:"in"`     // the series' chunk in every input file that holds it, in file order
+	UIn    []ChunkLayout `json:"uin,omitempty"` // merge: the series' chunk in every out-of-order input file, oldest first
 	Out    []ChunkLayout `json:"out"`    // the series' chunk in every output file that holds it, in file order
 }
 
@@ -360,6 +361,14 @@ func (c *colCtx) runOp(op string, emit func(*ColInstance)) {
 	before, bad0 := safeDump(c.st)
 	snapB, badB := snapOrdered(c.st, c.in)
 	nUnordB := len(storeFiles(c.st, false))
+	var snapU []fileSnap // the out-of-order files before the operation (inputs of a merge)
+	if op == "merge" {
+		for _, f := range storeFiles(c.st, false) {
+			l, b := fileLayout(f, c.in)
+			badB = append(badB, b...)
+			snapU = append(snapU, fileSnap{filepath.Base(f.Path()), l})
+		}
+	}
 	segs := map[uint64]int{}
 	for _, s := range snapB {
 		for sid, l := range s.lay {
@@ -442,7 +451,56 @@ func (c *colCtx) runOp(op string, emit func(*ColInstance)) {
 		sameSeq = sameSeq && len(s.name) >= 13 && len(snapB[0].name) >= 13 && s.name[:13] == snapB[0].name[:13]
 	}
 	inst.Aband = len(ins) == 0 && len(outs) == 0 && (op != "merge" || nUnordB > 0) && len(snapB) > 1 && !(op == "full" && sameSeq)
-	// layouts per series for a compaction (for a merge the inputs also include the out-of-order files: oracle only).
+	// out-of-order merge: the layouts of the replaced ordered files, of the consumed out-of-order files and of the new
+	// ordered files, per series (compared with MergeModel.merge_series column by column)
+	if op == "merge" && len(ins) > 0 && len(outs) > 0 {
+		left := map[string]bool{}
+		for _, f := range storeFiles(c.st, false) {
+			left[filepath.Base(f.Path())] = true
+		}
+		var uins []fileSnap
+		for _, s := range snapU {
+			if !left[s.name] {
+				uins = append(uins, s)
+			}
+		}
+		sids := map[uint64]bool{}
+		for _, l := range [][]fileSnap{ins, uins} {
+			for _, s := range l {
+				for sid := range s.lay {
+					sids[sid] = true
+				}
+			}
+		}
+		var sl []uint64
+		for sid := range sids {
+			sl = append(sl, sid)
+		}
+		sort.Slice(sl, func(i, j int) bool { return sl[i] < sl[j] })
+		for _, sid := range sl {
+			ser := SeriesLayout{Sid: sid}
+			fset := map[string]bool{}
+			add := func(dst *[]ChunkLayout, l []fileSnap) {
+				for _, s := range l {
+					if ch, ok := s.lay[sid]; ok {
+						*dst = append(*dst, *ch)
+						for f := range ch.C {
+							fset[f] = true
+						}
+					}
+				}
+			}
+			add(&ser.In, ins)
+			add(&ser.UIn, uins)
+			add(&ser.Out, outs)
+			for f := range fset {
+				ser.Fields = append(ser.Fields, f)
+			}
+			sort.Strings(ser.Fields)
+			inst.Series = append(inst.Series, ser)
+		}
+	}
+	// layouts per series for a compaction.
 	// Several plans may have run (one output sequence per plan): the inputs of the plan that wrote the files of sequence s
 	// are the replaced files with a sequence from s up to the next output sequence.
 	if op != "merge" && len(ins) > 0 {
